@@ -93,9 +93,11 @@ def parse_template(text: str) -> List[Token]:
 
             resolved_tokens.append(fixed_token)
             index_start = fixed_token.position[1]
-            lineno_offset += (
+            # NOTE: `fixed_token.lineno` already includes the previous offset, and the newlines must be counted
+            # in the whole tag as written in the source, not in its stripped contents.
+            lineno_offset = (
                 fixed_token.lineno - 1  # -1 because lines are 1-indexed
-                + fixed_token.contents.count("\n")
+                + text[broken_token_start:index_start].count("\n")
             )  # fmt: skip
         else:
             break
